@@ -485,6 +485,28 @@ class C15:
                         add_v('pitch-wrong', 'pitch-wrong/chord/' + klass, 'every chord note transposed', got_cell, row=ri, col=ci, source_cell=src_cell,
                               result_cell=got_cell, cell_kind='chord', identical_to_source=True, chain=res_h['chain'])
                     continue
+                if c.kind == 'chord' and hdr == '**kern':
+                    # the chord was rewritten (a tree that repaired chord-untouched): every note must follow the model
+                    ns, ng = src_cell.split(' '), got_cell.split(' ')
+                    metas = c.meta['chord']
+                    if len(ns) == len(ng) == len(metas):
+                        bad = None
+                        for a, b, m in zip(ns, ng, metas):
+                            l2, a2, o2 = m['letter'], ACC_VALUE.get(m['acc'], 0), m['oct']
+                            ok2 = True
+                            for iv2, d2 in res_h['chain']:
+                                l2, a2, o2 = transpose_model(l2, a2, o2, iv2, d2)
+                                ok2 = ok2 and abs(a2) <= 2
+                            sdur, spitch, sdec = split_cell(a)
+                            gdur, gpitch, gdec = split_cell(b)
+                            if ok2 and (gdur != sdur or gdec != sdec or gpitch != spell(l2, a2, o2)):
+                                bad = [a, b, spell(l2, a2, o2)]
+                                break
+                        if bad is None:
+                            continue
+                        add_v('pitch-wrong', 'pitch-wrong/chord-note/' + klass, bad[2], bad[1], row=ri, col=ci, source_cell=src_cell, result_cell=got_cell,
+                              cell_kind='chord', identical_to_source=False, chain=res_h['chain'])
+                        continue
                 # a cell that is not a **kern single note changed
                 tok_cls = type(stages[ri + 1][ci].token).__name__
                 sdur, spitch, sdec = split_cell(src_cell)
